@@ -1,6 +1,7 @@
 package props
 
 import (
+	"net/http"
 	stdxml "encoding/xml"
 	"encoding/base64"
 	"fmt"
@@ -14,6 +15,7 @@ import (
 	"verif/harness/internal/devx"
 	"verif/harness/internal/ev"
 	"verif/harness/internal/msg"
+	"verif/harness/internal/sched"
 	"verif/harness/internal/world"
 	"verif/harness/internal/xt"
 )
@@ -46,6 +48,56 @@ func parallel(n int, deadline time.Time, fn func(i int)) (int64, bool) {
 	}
 	wg.Wait()
 	return done.Load(), complete.Load() && int(done.Load()) == n
+}
+
+// ---- requests whose handler starts goroutines -----------------------------------------------------------------
+
+var schedMu sync.Mutex // the controlled scheduler runs one execution at a time per process
+
+// exploreSpawned is used when a free-running request turned out to start goroutines (Reply.Spawned > 0): its outcome
+// may depend on how they interleave, so the same case is re-run under the controlled scheduler for EVERY interleaving
+// within the preemption bound (statement granularity), each on a fresh world; judge sees every reply.
+// Returns the number of schedules and whether the exploration was complete.
+func exploreSpawned(build func() (*world.World, *http.Request), bound int, budget time.Duration, judge func(w *world.World, rep *world.Reply)) (int64, bool) {
+	schedMu.Lock()
+	defer schedMu.Unlock()
+	oldFine, oldTID := sched.Fine, world.ThreadID
+	sched.Fine, world.ThreadID = true, sched.CurrentThread
+	defer func() { sched.Fine, world.ThreadID = oldFine, oldTID }()
+	var cur *world.World
+	stop := time.Now().Add(budget)
+	complete := true
+	e := &sched.Explorer{Bound: bound, Horizon: 50000,
+		Scenario: func() []sched.Body {
+			w, req := build()
+			cur = w
+			return []sched.Body{func() any { return w.Do(req) }}
+		},
+		Check: func(x *sched.Exec, _ []int) {
+			if x.Stuck {
+				complete = false
+				return
+			}
+			rep, _ := x.Results[0].(*world.Reply)
+			if rep == nil {
+				rep = &world.Reply{}
+			}
+			if x.Deadlock {
+				rep.Panic, rep.PanicSite = "deadlock between the goroutines of one request", "deadlock"
+			}
+			for i, p := range x.Panics {
+				if p != nil && rep.Panic == "" {
+					rep.Panic, rep.PanicSite = fmt.Sprintf("in goroutine %d of the request: %v", i, p), "goroutine"
+				}
+			}
+			if rep.Calls == nil {
+				rep.Calls = cur.Store.Calls()
+			}
+			judge(cur, rep)
+		},
+		Stop: func() bool { return time.Now().After(stop) }}
+	e.Explore(nil)
+	return e.Execs, complete && !e.Truncated
 }
 
 // ---- structural edit operators on xt trees (C09 and others) --------------------------------------
